@@ -49,7 +49,7 @@ EscAttrSym(c) == CASE c = "amp" -> Ref(3) [] c = "lt" -> Ref(2) [] c = "gt" -> R
 \* The reporter hands attribute values to ElementTree as they are.  (If it ever passes them through
 \* _escape_invalid_xml_chars first -- the drafted repair of DESIGN 8 #3 -- set this to TRUE: the specification
 \* follows the code.)
-AttrFiltersInvalid == FALSE
+AttrFiltersInvalid == TRUE
 EscTextSym(c) == CASE c = "amp" -> Ref(3) [] c = "lt" -> Ref(2) [] c = "gt" -> Ref(2) [] OTHER -> <<c>>
 EscapeText(s) == Map(s, EscTextSym)
 \* str.strip() as applied to the exception text that becomes @message (it also removes blanks and non-ASCII
